@@ -230,7 +230,17 @@ def entry_rules(ctx, f, b, cfg):
             if callee_is(t, "TokenResult::is_blocked") and any_atom(atoms, "call:EntryContext::result"):
                 return "verdict.is_blocked"
             return "call:" + callee_def(t).rsplit("::", 1)[-1]
+        def cls(atoms, op=None, _c=cls):
+            r = _c(atoms, op)
+            if r == "verdict.block_err":
+                return r
+            if op is not None and discr_of_call(b, op, "Iterator::next"):
+                return "iter"
+            if "discr" in atoms and any_atom(atoms, "call:EntryContext::result") and not any_atom(atoms, "call:Iterator::next") and not any_atom(atoms, "call:TokenResult::block_err"):
+                return "verdict"      # match on / is_pass() / is_blocked() of the stored verdict
+            return r
         w = D.Walker(f, b, cls, opaque_name=oname)
+        w.summarise_predicates = True
         start = b.term(its[0][0])["target"]
         counts = {}
 
@@ -253,6 +263,10 @@ def entry_rules(ctx, f, b, cfg):
             be = asg["disc"].get("verdict.block_err")
             if be is not None:
                 return "pass=0,blocked=1" if be == 1 else ("pass=1,blocked=0" if be == 0 else None)
+            vd = asg["disc"].get("verdict")
+            vnames = [v["name"] for v in (f.adts.get("core::base::result::TokenResult") or {}).get("variants", [])]
+            if isinstance(vd, int) and vd < len(vnames):
+                return {"Pass": "pass=1,blocked=0", "Blocked": "pass=0,blocked=1"}.get(vnames[vd])
             ip = asg["opaque"].get("verdict.is_pass")
             ib = asg["opaque"].get("verdict.is_blocked")
             if ip is None or ib is None:
@@ -291,7 +305,8 @@ def entry_rules(ctx, f, b, cfg):
             ctx.violation("C13.one-notification", "C13.one-notification|verdict-consumed-in-loop", "the verdict handed to the statistic slots is held in a local that the loop itself mutates (e.g. Option::take): later slots see a different verdict", b.loc(ps), config=cfg)
         # the error handed to on_entry_blocked is the stored verdict's
         a3 = sl.of_operand(b.term(bl)["args"][2]) if len(b.term(bl)["args"]) > 2 else set()
-        oke = any_atom(a3, "call:TokenResult::block_err") and any_atom(a3, "call:EntryContext::result")
+        # ctx.result().block_err(), or the payload of the Blocked arm of a match on ctx.result()
+        oke = any_atom(a3, "call:EntryContext::result") and (any_atom(a3, "call:TokenResult::block_err") or any("TokenResult::Blocked" in x for x in a3 if x.startswith("field:")))
         ctx.instance("C13.one-notification/error", b.path, "on_entry_blocked gets ctx.result().block_err(): %s" % oke, "true", oke, cfg)
         if not oke:
             ctx.violation("C13.one-notification", "C13.one-notification|error-origin", "the error delivered to statistic slots is not the stored verdict's error", b.loc(bl), config=cfg)
@@ -370,7 +385,16 @@ def exit_rules(ctx, f, b, role_field, cfg):
 
     def oname(t, atoms):
         return "call:" + callee_def(t).rsplit("::", 1)[-1]
+    base_cls = cls
+
+    def cls(atoms, op=None):
+        if op is not None and discr_of_call(b, op, "Iterator::next"):
+            return "iter"
+        if "discr" in atoms and any_atom(atoms, "call:EntryContext::entry") and not any_atom(atoms, "call:Iterator::next"):
+            return "entry"
+        return base_cls(atoms, op)
     w = D.Walker(f, b, cls, opaque_name=oname)
+    w.option_calls_as_disc = True       # `if ctx.entry().is_none() { return }` / `if let Some(e) = ctx.entry()` / nested if-else
     c0 = comp[0]
     scc = b.scc_of(c0)
 
@@ -385,6 +409,8 @@ def exit_rules(ctx, f, b, role_field, cfg):
 
     def expected(asg):
         isn = asg["opaque"].get("call:is_none")
+        if asg["disc"].get("entry") == 0:
+            isn = True
         ib = asg["opaque"].get("call:is_blocked")
         if ib is None:
             return None
@@ -401,6 +427,8 @@ def exit_rules(ctx, f, b, role_field, cfg):
         t = b.term(src)
         if (b.term(dst) or {}).get("k") == "unreachable":
             continue
+        if t["k"] == "switch" and str(t.get("hof", "")).endswith("for_each") and dst == t["otherwise"]:
+            continue      # iter().for_each(..): the unfolded closure loop is left only when every element was visited
         at = Slicer(f, b).of_operand(t["op"]) if t["k"] == "switch" else set()
         none_edge = [tg for v, tg in t.get("targets", []) if v == 0]
         if not (t["k"] == "switch" and "discr" in at and any_atom(at, "call:Iterator::next") and none_edge and dst == none_edge[0]):
@@ -422,6 +450,7 @@ def build_rules(ctx, f, b, cfg):
     bi = names.index("Blocked")
     cls = make_classifier([("chain_result", ["call:SlotChain::entry"], [])])
     w = D.Walker(f, b, cls)
+    w.summarise_predicates = True       # `match r { Blocked(_) => .. }`, `if r.is_blocked()`, `matches!(r, Blocked(_))`: one atom
     exits = {bb for bb, t in b.calls() if callee_is(t, "SentinelEntry::exit", "EntryStrongPtr::exit")}
     entries = [bb for bb, t in b.calls() if callee_is(t, "SlotChain::entry")]
     if not ctx.floor("C13.build", "SlotChain::entry call in EntryBuilder::build", len(entries), 1):
